@@ -45,10 +45,11 @@ const (
 	opIntro   // every introspection call of the Worker interface (C19 API fuzz)
 	opWarmDone  // end of the warm-up task: releases every task parked in AwaitWarm at once
 	opAwaitWarm // park until the warm-up task is through (no-op without one)
+	opInject    // another writer puts an undecodable entry into the backend of an adapter queue
 	nOps
 )
 
-var opNames = [nOps]string{"Add", "AddAll", "CloseJob", "Purge", "CloseQueue", "Wait", "Result", "Drain", "Status", "BatchWait", "BatchRead", "BatchPending", "Pause", "PauseAndWait", "Resume", "Stop", "WaitAndStop", "Restart", "TunePool", "WaitUntilFinished", "Bind", "CancelCtx", "OpenGate", "Settle", "Advance", "Sample", "QueuePending", "Yield", "Crash", "SpawnConsumer", "AddBare", "Introspect", "WarmDone", "AwaitWarm"}
+var opNames = [nOps]string{"Add", "AddAll", "CloseJob", "Purge", "CloseQueue", "Wait", "Result", "Drain", "Status", "BatchWait", "BatchRead", "BatchPending", "Pause", "PauseAndWait", "Resume", "Stop", "WaitAndStop", "Restart", "TunePool", "WaitUntilFinished", "Bind", "CancelCtx", "OpenGate", "Settle", "Advance", "Sample", "QueuePending", "Yield", "Crash", "SpawnConsumer", "AddBare", "Introspect", "WarmDone", "AwaitWarm", "InjectBadEntry"}
 
 // Op: K kind; Q queue index; A argument (sub number, batch number, tune value,
 // time units, bind kind); Subs: submission numbers of an Add/AddAll.
@@ -384,6 +385,20 @@ func (wd *World) runOp(op Op) {
 			wd.sampleIdle(1)
 			wd.sample(true)
 		}
+	case opInject:
+		q := wd.queue(op.Q)
+		if q == nil || q.ad == nil || wd.epilogue {
+			return
+		}
+		c := r.begin(opInject, q.idx, -1)
+		bad := [][]byte{[]byte("{\"id\":\"inj\",\"status\":\"Queued\",\"data\":{{"), []byte("\x00\xff garbage"), []byte("{\"id\":\"inj2\",\"status\":\"NoSuchStatus\",\"data\":1}"), []byte("{\"id\":\"inj3\",\"status\":\"Queued\",\"data\":\"not a number\"}")}
+		e := adEntry{Bad: 1, Sub: -1, Bytes: bad[op.A%len(bad)]}
+		q.ad.hb()
+		q.ad.inject(simrt.Choose(len(q.ad.pending)+1), e)
+		q.ad.injected++
+		q.ad.hb()
+		q.ad.notify()
+		r.end(c)
 	case opWarmDone:
 		wd.warmDone = true
 	case opAwaitWarm:
